@@ -16,20 +16,20 @@ pub fn def() -> CheckDef {
         level: "exploration",
         assumptions: &["monotone simulated clock", "actions are judged at quiescent points (layer 1); racing client threads are the layer-2 part of this check", "no storage errors are injected"],
         probes: &["probe.terminal_act_targeted", "probe.non_act_targeted", "probe.unknown_id", "probe.missing_output", "probe.rejected_checked_for_effects", "probe.duplicate_action"],
-        quick_cases: 3000,
+        quick_cases: 5000,
         no_shrink: &[],
     }
 }
 
 const OPTS: LifeOpts = LifeOpts {
     catches: true,
-    scripted_actions: &["complete", "submit", "skip", "abort", "error", "back", "cancel", "remove"],
+    scripted_actions: &["cancel_prev", "complete", "submit", "skip", "abort", "error", "back", "cancel", "remove"],
     p_scripted: 400,
     adversary: Some((450, 16, &TEN)),
     dup: true,
     generators: true,
     hooks: false,
-    outputs: true,
+    outputs: true, drop_outputs: true
 };
 
 pub fn case(ctx: &mut CaseCtx) -> CaseOut {
@@ -203,7 +203,7 @@ pub fn def_b() -> CheckDef {
         level: "exploration",
         assumptions: &["preemption happens at engine lock acquisitions (all shared engine state is behind these locks)", "virtual threads are real OS threads released one at a time; the interleaving is the decision trace", "monotone simulated clock"],
         probes: &["probe.overlapping_calls", "probe.forced_switch", "probe.eight_threads", "probe.action_complete", "probe.action_other"],
-        quick_cases: 1200,
+        quick_cases: 2000,
         no_shrink: &[],
     }
 }
